@@ -336,6 +336,44 @@ def c15_template(args):
                 missing = sorted(n for n in os.listdir(DS0) if n not in st2)
                 label = ";".join(x for x in ("empty=" + ",".join(damaged) if damaged else "", "missing=" + ",".join(missing) if missing else "") if x) or "files-intact"
                 res["violations"].append({"key": "%s:%s" % (key, label), "template": tmpl, "template_index": ti, "tier": tier, "fault": pos, "state": {k: list(v) for k, v in st2.items()}})
+        # ---- read faults: a cycle against each REPLAYED OLDER repository during which opening one of
+        # the stored files for reading fails (EIO / EACCES / EMFILE). A stored file that cannot be
+        # read is not "nothing stored": the cycle must not accept the older metadata, and whatever it
+        # leaves behind must keep refusing it. (Not in the restart templates, where an old-key replay
+        # is legitimately acceptable after the hand-over.)
+        if not restart:
+            for oname, od in sorted(older.items()):
+                shutil.rmtree(DS, ignore_errors=True)
+                shutil.copytree(DS0, DS)
+                log = os.path.join(W, "rdry.log")
+                sh(["strace", "-f", "-y", "-qq"] + pflags(DS) + ["-e", "trace=" + TRACE_SET, "-o", log] + client_cmd(od, DS, shipped))
+                reads = [e for e in parse_trace(log, DS) if e["sys"] == "openat" and not e["write_open"] and e["ds"] and os.path.basename(e["ds"]) in os.listdir(DS0)]
+                if tier == "quick" and len(reads) > 4:
+                    reads = reads[:4]
+                for e in reads:
+                    for kind in ("EIO", "EACCES", "EMFILE"):
+                        what = os.path.basename(e["ds"])
+                        pos = {"sys": "openat", "when": e["idx"], "kind": kind, "what": what, "read_of": what, "during": oname}
+                        shutil.rmtree(DS, ignore_errors=True)
+                        shutil.copytree(DS0, DS)
+                        cmd = ["strace", "-f", "-qq", "-o", os.path.join(W, "inj.log")] + pflags(DS)
+                        cmd += ["-e", "trace=openat", "-e", "inject=openat:error=%s:when=%d" % (kind, e["idx"])] + client_cmd(od, DS, shipped)
+                        r = sh(cmd)
+                        res["runs"] += 1
+                        if "INJECTED" not in open(os.path.join(W, "inj.log"), errors="replace").read():
+                            continue
+                        res["fired"] += 1
+                        fk = "%s:read-open" % kind
+                        res["faults"][fk] = res["faults"].get(fk, 0) + 1
+                        st = dir_state(DS)
+                        res["nontrivial"].add(("openat-read", kind, what, oname, r.returncode == 0))
+                        if r.returncode == 0:
+                            res["violations"].append({"key": "rollback-accepted-while-stored-file-unreadable:%s:%s" % (oname, what), "template": tmpl, "template_index": ti, "tier": tier,
+                                                      "fault": pos, "state": {k: list(v) for k, v in st.items()}})
+                            continue
+                        for key, st2 in followups(DS, pos):
+                            res["violations"].append({"key": "%s:after-read-error-of-%s" % (key, what), "template": tmpl, "template_index": ti, "tier": tier, "fault": pos,
+                                                      "state": {k: list(v) for k, v in st2.items()}})
     except Exception as e:  # noqa
         res["harness"].append("exception: %r" % (e,))
     return finish(res, W)
@@ -362,7 +400,7 @@ def run_c15(tier, replay=None):
     with multiprocessing.Pool(THREADS) as pool:
         results = pool.map(c15_template, [(i, SEED, tier) for i in range(n)])
     return report("C15", tier, results, known, t0,
-                  rule="per template (seeded: versions, which roles are newer, consistent snapshots, delegated role, root rotation; every fourth template rotates with one of two online keys retained and restarts the timestamp and snapshot versions at 1) a successful cycle 1, then cycle 2 against a newer repository with EVERY datastore-related system call position enumerated from a dry run of the binary under test: SIGKILL on entry to each open-for-write / write / rename / unlink and just after each of them, and EIO / ENOSPC / EACCES as their result; each resulting datastore is then offered three replayed older repositories (must be refused) and the current one (must load); non-trivial = the fault fired and left a datastore different from the pre-cycle state; distinct = distinct (syscall, fault kind, file, resulting state)",
+                  rule="per template (seeded: versions, which roles are newer, consistent snapshots, delegated role, root rotation; every fourth template rotates with one of two online keys retained and restarts the timestamp and snapshot versions at 1; in the other templates also a cycle against each replayed older repository during which opening a stored file for reading fails with EIO / EACCES / EMFILE) a successful cycle 1, then cycle 2 against a newer repository with EVERY datastore-related system call position enumerated from a dry run of the binary under test: SIGKILL on entry to each open-for-write / write / rename / unlink and just after each of them, and EIO / ENOSPC / EACCES as their result; each resulting datastore is then offered three replayed older repositories (must be refused) and the current one (must load); non-trivial = the fault fired and left a datastore different from the pre-cycle state; distinct = distinct (syscall, fault kind, file, resulting state)",
                   level="fault_enumeration",
                   assumptions=["process death, not power loss: what a completed system call wrote is durable (missing fsync is invisible)",
                                "the client's datastore I/O is issued by one thread in a fixed order (checked by two dry runs per template)",
